@@ -99,6 +99,8 @@ func runC01(c *report.Ctx) {
 	ruleReorgReachesNewTip(c)
 	ruleEveryRelevantOutputCredited(c)
 	ruleMemoryTipFollowsPersistedTip(c)
+	c.Rule("background-selected-wallet-free", "no code the follower or the worker reaches consults the API's currently selected wallet: which wallet owns an output, and whether a record another wallet needs may be deleted, must not depend on what a client selected (a record deleted because its co-owner was not the selected wallet makes a later rollback of its block leave that wallet a phantom coin)", 1)
+	ruleBackgroundSelectedWalletFree(c)
 
 	// ---- must-pass ---------------------------------------------------------
 	c.Rule("must-pass", "every success exit of a ledger step passes the call that makes the step durable/complete", 5)
